@@ -111,7 +111,26 @@ def run(chk):
         if np.all(B == np.round(B)) and np.abs(B).max() < 2 ** 40 and rng.random() < 0.5:
             Bfit = B.astype(np.int64)          # the same real matrix held in an integer-typed array (e.g. pixel counts)
             kind += "/int64"
-        for name, mk in (("QR", lambda: QR()), ("CCQR", lambda: CCQR()), ("GQR", lambda: GQR())):
+        # GQR "without constraints" comes in several forms: plain, told the sensor count only, and an object that was used before
+        kreq = int(rng.integers(1, n + 1))
+
+        def gqr_told():
+            g = GQR()
+            return type("W", (), {"fit": staticmethod(lambda M: g.fit(M, n_sensors=kreq))})()
+
+        def gqr_used():
+            g = GQR()
+            n0 = int(rng.integers(1, 6))
+            impl.quiet(g.fit, rng.integers(-8, 9, size=(n0, int(rng.integers(1, 5)))) / 4.0, n_sensors=int(rng.integers(1, n0 + 1)))
+            return g
+
+        def ccqr_used():
+            c = CCQR()
+            impl.quiet(c.fit, rng.integers(-8, 9, size=(int(rng.integers(1, 6)), int(rng.integers(1, 5)))) / 4.0)
+            return c
+        forms = [("QR", lambda: QR()), ("CCQR", lambda: CCQR()), ("GQR", lambda: GQR())]
+        extra = [("GQR/n_sensors", gqr_told), ("GQR/used", gqr_used), ("CCQR/used", ccqr_used)][int(rng.integers(0, 3))]
+        for name, mk in forms + [extra]:
             try:
                 runs[name] = [int(i) for i in impl.quiet(mk().fit, Bfit.copy()).get_sensors()]
             except Exception as e:
@@ -127,7 +146,11 @@ def run(chk):
                 u_ = rng.random()
                 ns_req = None if u_ < 0.35 else (int(rng.integers(1, mm)) if (u_ < 0.75 and mm >= 2) else int(rng.integers(1, n + 1)))
                 mdl = SSPOR(basis=impl.make_basis({"kind": bk, "n_basis_modes": mm}), optimizer=omk(), n_sensors=ns_req)
-                impl.quiet(mdl.fit, X, quiet=True, seed=int(rng.integers(0, 1000)))
+                okw = {}
+                if isinstance(mdl.optimizer, GQR) and ns_req is not None and rng.random() < 0.5:
+                    okw = {"n_sensors": ns_req}          # GQR is told the sensor count (no region): still the unconstrained ranking
+                    chk.count("sspor_gqr_told_n_sensors")
+                impl.quiet(mdl.fit, X, quiet=True, seed=int(rng.integers(0, 1000)), **okw)
                 if np.array(mdl.basis_matrix_).shape[1] >= 2 and rng.random() < 0.4:
                     # fewer modes afterwards: the ranking must be the greedy ranking of the TRUNCATED basis matrix
                     impl.quiet(mdl.update_n_basis_modes, int(rng.integers(1, np.array(mdl.basis_matrix_).shape[1])), quiet=True)
